@@ -89,3 +89,117 @@ Example C05_bde_tape_nonvacuous :
 Proof.
   split; [apply C05_bde_prop_is_model_artefact|]. repeat split; vm_compute; reflexivity.
 Qed.
+
+(* ------------------------------------------------------------------ text tape path
+   TextDeTape.deser_tape = TextDeserializer::from_*_tape: the mutual walk de / seq_all / seq_tup / twalk
+   over the DOM reader operations of TextDeTape.v on the tape TextTape.parse returns (C17: tape_wf).
+
+     C05_tde_tape_no_panic            for EVERY input, shape (prop(..) included), decoder returning real bytes,
+                                      float parser / casts: never Panic (SITE_TOK 9100 `tokens[i]`, 9001/9002 of
+                                      finish) and never OOB -- with the entry point's own fuel ...
+     C05_tde_tape_no_panic_any_fuel   ... and with every other fuel
+     C05_tde_tape_terminates          the walk needs at most 2 * |tape| + 2 * shape_size + 4 levels of fuel:
+                                      with that much it returns Ok / Err for every input and shape (this is the
+                                      termination theorem; fuel is a device of the model, the Rust code has none)
+     C05_tde_tape_never_crashes_partial   with the entry point's OWN fuel tape_fuel = 2 * |tape| + shape_size + 8:
+                                      Ok / Err provided seq_extra t sh <= 4 (the tape has no Header token such
+                                      as `rgb {..}`, or seq(..)/tup(..) are nested at most 4 deep in the shape).
+         GAP (exact): the hypothesis seq_extra t sh <= 4.  It cannot be dropped for the model as it is:
+     C05_tde_tape_own_fuel_refuted    `a=rgb{{}}` with map(seq^16(ign)) returns OutOfFuel with tape_fuel
+                                      (deserialize_seq on a Header value yields the header token itself as
+                                      first element: two fuel levels per shape level, no progress in the tape).
+                                      MODEL artefact: the implementation returns the value (replayed, release and
+                                      debug, `de.text tape`); tape_fuel should be 2*|tape| + 2*shape_size + 8.
+     C05_tde_objreader_partial        the harness path objreader@k: Panic 9101 (the harness' own `expect`) exactly
+                                      when the root has no k-th field, otherwise as the root path
+     C05_tde_tape_any_wf_tape         the walk theorem for ANY tape_wf tape and any object-body range *)
+From JV.proofs Require Import NoCrashTextDe NoCrashTapeWalksText.
+From JV Require Utf8 TextTok TextTape TapeWf TextDeCommon TextDeTape.
+
+Definition no_panic_oob {A} (o : outcome A) : Prop := match o with Panic _ | OOB _ => False | _ => True end.
+
+Lemma gd2_true_nopanic {A} (FF : Prop) (o : outcome A) : gd2 true FF (fun _ => True) o -> no_panic_oob o.
+Proof. destruct o; cbn; try tauto. intros [H _]; discriminate. Qed.
+Lemma gd2_true_nocrash {A} (FF : Prop) (o : outcome A) : gd2 true FF (fun _ => True) o -> FF -> no_crash o.
+Proof. destruct o; cbn; try tauto. intros [H _]; discriminate. Qed.
+
+Theorem C05_tde_tape_no_panic : forall decode parse_f64 fo sh input,
+  (forall raw, wfl (Utf8.cow_bytes (decode raw))) ->
+  match TextTape.parse input with
+  | Ok (t, _) => no_panic_oob (TextDeTape.deser_tape decode parse_f64 fo sh t)
+  | _ => True
+  end.
+Proof.
+  intros decode parse_f64 fo sh input Hdec. pose proof (deser_tape_text_parse decode parse_f64 fo sh input Hdec) as H.
+  destruct (TextTape.parse input) as [[t bom]| | | |]; auto. eapply gd2_true_nopanic; eauto.
+Qed.
+Print Assumptions C05_tde_tape_no_panic.
+
+Theorem C05_tde_tape_no_panic_any_fuel : forall decode parse_f64 fo sh input fuel,
+  (forall raw, wfl (Utf8.cow_bytes (decode raw))) ->
+  match TextTape.parse input with
+  | Ok (t, _) => no_panic_oob (TextDeTape.de_root decode parse_f64 fo t fuel sh 0 (length t))
+  | _ => True
+  end.
+Proof.
+  intros decode parse_f64 fo sh input fuel Hdec. destruct (TextTape.parse input) as [[t bom]| | | |] eqn:E; auto.
+  eapply gd2_true_nopanic. apply (de_root_text_ok decode parse_f64 fo sh t fuel Hdec).
+  exact (JV.proofs.TextTapeGrammarProofs.parse_tape_wf input t bom E).
+Qed.
+Print Assumptions C05_tde_tape_no_panic_any_fuel.
+
+Theorem C05_tde_tape_terminates : forall decode parse_f64 fo sh input fuel,
+  (forall raw, wfl (Utf8.cow_bytes (decode raw))) ->
+  match TextTape.parse input with
+  | Ok (t, _) => 2 * length t + 2 * TextDeCommon.shape_size sh + 4 <= fuel ->
+                 no_crash (TextDeTape.de_root decode parse_f64 fo t fuel sh 0 (length t))
+  | _ => True
+  end.
+Proof.
+  intros decode parse_f64 fo sh input fuel Hdec. destruct (TextTape.parse input) as [[t bom]| | | |] eqn:E; auto.
+  intros Hf. eapply gd2_true_nocrash; [|exact Hf]. apply (de_root_text_ok_2size decode parse_f64 fo sh t fuel Hdec).
+  exact (JV.proofs.TextTapeGrammarProofs.parse_tape_wf input t bom E).
+Qed.
+Print Assumptions C05_tde_tape_terminates.
+
+(* full statement wanted:  ... => no_crash (deser_tape decode parse_f64 fo sh t)  without the seq_extra hypothesis;
+   false for the model's tape_fuel (C05_tde_tape_own_fuel_refuted) *)
+Theorem C05_tde_tape_never_crashes_partial : forall decode parse_f64 fo sh input,
+  (forall raw, wfl (Utf8.cow_bytes (decode raw))) ->
+  match TextTape.parse input with
+  | Ok (t, _) => seq_extra t sh <= 4 -> no_crash (TextDeTape.deser_tape decode parse_f64 fo sh t)
+  | _ => True
+  end.
+Proof.
+  intros decode parse_f64 fo sh input Hdec. pose proof (deser_tape_text_parse decode parse_f64 fo sh input Hdec) as H.
+  destruct (TextTape.parse input) as [[t bom]| | | |]; auto. intros Hs. eapply gd2_true_nocrash; eauto.
+Qed.
+Print Assumptions C05_tde_tape_never_crashes_partial.
+
+Theorem C05_tde_tape_own_fuel_refuted :
+  exists decode parse_f64 fo sh input t,
+    (forall raw, wfl (Utf8.cow_bytes (decode raw))) /\
+    TextTape.parse input = Ok (t, false) /\
+    TextDeTape.deser_tape decode parse_f64 fo sh t = OutOfFuel /\
+    is_ok (TextDeTape.de_root decode parse_f64 fo t 200 sh 0 (length t)) = true.
+Proof.
+  exists (fun raw => Utf8.Borrowed (filter (fun b => (b <? 256)%N) raw)), cex_pf, cex_fo, cex_shape, cex_input, cex_tape.
+  split; [apply C05_tde_nonvacuous_hyp|]. repeat split; vm_compute; reflexivity.
+Qed.
+
+Theorem C05_tde_objreader_partial : ltac:(let t := type of deser_objreader_text_ok in exact t).
+Proof. exact deser_objreader_text_ok. Qed.
+Print Assumptions C05_tde_objreader_partial.
+
+Theorem C05_tde_tape_any_wf_tape : ltac:(let t := type of de_root_range_ok in exact t).
+Proof. exact de_root_range_ok. Qed.
+Print Assumptions C05_tde_tape_any_wf_tape.
+
+(* non-vacuity: `a=rgb{1 2} b={c=d}` (a Header value and a nested object) *)
+Definition C05_tde_tape_input : bytes := [97;61;114;103;98;123;49;32;50;125;32;98;61;123;99;61;100;125]%N.
+Example C05_tde_tape_nonvacuous :
+  exists t, TextTape.parse C05_tde_tape_input = Ok (t, false) /\ has_header t = true /\
+    TextDeTape.deser_tape C05_dec (fun _ => Err 1%N) C05_fo (ShMap ShAny) t
+    = Ok (DMap [([97]%N, DSeq [DStr [49]%N; DStr [50]%N]); ([98]%N, DAMap [(DStr [99]%N, DStr [100]%N)])]) /\
+    seq_extra t (ShMap ShAny) = 0.
+Proof. eexists. split; [vm_compute; reflexivity|]. repeat split; vm_compute; reflexivity. Qed.
